@@ -145,6 +145,10 @@ func Lock(site string, m tryLocker) {
 		raceEnable()
 	}
 	tk.lockDepth++
+	if tk.nHeld < len(tk.held) {
+		tk.held[tk.nHeld] = m
+		tk.nHeld++
+	}
 }
 
 // Unlock replaces m.Unlock().
@@ -159,6 +163,14 @@ func Unlock(m tryLocker) {
 	if tk := lookupTask(); tk != nil {
 		if tk.lockDepth > 0 {
 			tk.lockDepth--
+		}
+		for i := tk.nHeld - 1; i >= 0; i-- {
+			if tk.held[i] == m {
+				copy(tk.held[i:], tk.held[i+1:tk.nHeld])
+				tk.nHeld--
+				tk.held[tk.nHeld] = nil
+				break
+			}
 		}
 		s.unlockEpch++
 	}
